@@ -8,7 +8,7 @@
        [ scheme ":" ] rest [ "?" query ]        scheme = ALPHA *( ALPHA / DIGIT / "+" / "-" / "." )  (a leading ':' is an error)
        rest not starting with '/':  with a scheme -> opaque (no host);  without -> the first segment must not contain ':'
        rest = "//" authority [ "/" path ]       (without scheme: not when rest starts with "///")
-       authority = [ userinfo "@" ] host        (last '@');  userinfo over a fixed ASCII set, its escapes well-formed
+       authority = [ userinfo at-sign ] host        (last at-sign);  userinfo over a fixed ASCII set, its escapes well-formed
        host: "[" ... "]" [ ":" digits ]  |  name [ ":" digits ]   (RFC 3986 / RFC 6874 zone after "%25")
              percent-escapes in the host may only encode bytes >= 0x80 (or "%25"); ASCII bytes outside the host set are errors
        the escapes of path and fragment must be well-formed. *)
@@ -60,7 +60,7 @@ Fixpoint escapes_ok (s : bytes) : bool :=
               else escapes_ok r
   end.
 
-(* bytes that may stand unescaped in a host: non-ASCII, unreserved, sub-delims, and : [ ] < > " *)
+(* bytes that may stand unescaped in a host: non-ASCII, unreserved, sub-delims, colon, brackets, angle brackets, double quote *)
 Definition nu_hostbyte (c : N) : bool := (128 <=? c) || nu_alnum c || mem c (s2b "!$&'()*+,;=:[]<>""-_.~").
 Definition hexv (a b : N) : option N :=
   match hexdig a, hexdig b with Some x, Some y => Some (Z.to_N (16 * x + y)%Z) | _, _ => None end.
@@ -94,20 +94,18 @@ Fixpoint last_cut (c : N) (s : bytes) : option (bytes * bytes) :=      (* at the
               | None => if x =? c then Some ([], r) else None
               end
   end.
+Definition starts_with (p s : bytes) : bool := beq (firstn (length p) s) p.
 Fixpoint find_pct25 (s : bytes) : option (bytes * bytes) :=            (* first "%25": before it, from it on *)
   match s with
   | [] => None
-  | c :: r => match s with
-              | 37 :: 50 :: 53 :: _ => Some ([], s)
-              | _ => match find_pct25 r with Some (a, b) => Some (c :: a, b) | None => None end
-              end
+  | c :: r => if starts_with [37; 50; 53] s then Some ([], s)
+              else match find_pct25 r with Some (a, b) => Some (c :: a, b) | None => None end
   end.
 Definition nu_port (p : bytes) : bool := match p with [] => true | c :: r => (c =? 58) && forallb nu_digit r end.
 
 (* parseHost *)
 Definition nu_parse_host (h : bytes) : option bytes :=
-  match h with
-  | 91 :: _ =>
+  if starts_with [91] h then
       match last_cut 93 h with
       | None => None                                            (* missing ']' *)
       | Some (inside, port) =>                                  (* h = inside ++ "]" ++ port *)
@@ -121,12 +119,11 @@ Definition nu_parse_host (h : bytes) : option bytes :=
           | None => nu_unescape_host false h
           end
       end
-  | _ =>
+  else
       match last_cut 58 h with
       | Some (_, digits) => if forallb nu_digit digits then nu_unescape_host false h else None
       | None => nu_unescape_host false h
-      end
-  end.
+      end.
 
 Definition nu_userinfo_ok (ui : bytes) : bool :=
   forallb (fun c => nu_alnum c || mem c (s2b "-._:~!$&'()*+,;=%@")) ui && escapes_ok ui.
@@ -141,8 +138,6 @@ Definition nu_authority (a : bytes) : option bytes :=
                     end
   end.
 
-Definition starts_with (p s : bytes) : bool := beq (firstn (length p) s) p.
-
 (* url.Parse(raw): None = error, Some (scheme, host, rawquery) *)
 Definition nu_parse (raw : bytes) : option (bytes * bytes * bytes) :=
   let (u, frag) := cut1 35 raw in
@@ -155,7 +150,7 @@ Definition nu_parse (raw : bytes) : option (bytes * bytes * bytes) :=
       let scheme := map nu_lower scheme in
       let (rest, q) := cut1 63 rest in
       let query := opt_bytes q in
-      let rooted := match rest with 47 :: _ => true | _ => false end in
+      let rooted := starts_with [47] rest in
       if negb rooted && negb (match scheme with [] => true | _ => false end) then Some (scheme, [], query)      (* opaque *)
       else if negb rooted && mem 58 (fst (cut1 47 rest)) then None                                             (* first path segment has a colon *)
       else if (negb (match scheme with [] => true | _ => false end) || negb (starts_with [47; 47; 47] rest)) && starts_with [47; 47] rest then
